@@ -253,6 +253,9 @@ func (g *Gen) Case(o CaseOpts) *Case {
 		line.Set("msg", KeepS(g.pick("Aggregate command executor error", "Plan executor error during find command", "Slow query")))
 		attr.Set("error", keep(ObjN("code", IntN(50), "codeName", StrN("MaxTimeMSExpired"), "errmsg", StrN("operation exceeded time limit"))))
 		attr.Set("stats", keep(ObjN()))
+		if g.chance(0.5) {
+			attr.Set("ns", nsFull) // error reports often carry the namespace next to the command copy
+		}
 		attr.Set("cmd", cmd)
 	}
 	line.Set("attr", attr)
